@@ -5,6 +5,7 @@ from ..core.loader import AnalysisError, own_nodes, norm, ancestors, enclosing_s
 from ..core import astq
 from ..core.cfg import ENTRY, EXIT, guards_of
 from . import common as K
+from . import flowalg
 
 EXPLANATION = (
     "Static necessary conditions for conservation of people, decided from atomica/model.py (and every other module for the ownership rule): "
@@ -31,6 +32,9 @@ def run(ctx):
     ctx.each(r01f, ctx, repo, T)
     ctx.each(r01g, ctx, repo, T)
     ctx.each(r01h, ctx, repo, T)
+    ctx.each(flowalg.share_rule, ctx, repo, "R01j")
+    ctx.each(flowalg.accumulator_rule, ctx, repo, "R01i")
+    ctx.each(flowalg.link_registration_rule, ctx, repo, "R01k")
 
 
 # ---------------------------------------------------------------------------------------------- R01a
